@@ -37,21 +37,33 @@ type Verdict struct {
 	Counts map[string]int `json:"counts,omitempty"`
 }
 
+// verdictMu serialises updates of a Verdict: oracles are often fed from
+// several goroutines of a simulation (peer handlers, callers).
+var verdictMu sync.Mutex
+
 func (v *Verdict) Class(format string, a ...any) {
+	verdictMu.Lock()
+	defer verdictMu.Unlock()
 	v.Classes = append(v.Classes, fmt.Sprintf(format, a...))
 }
 func (v *Verdict) Logf(format string, a ...any) {
+	verdictMu.Lock()
+	defer verdictMu.Unlock()
 	if len(v.Trace) < 400 {
 		v.Trace = append(v.Trace, fmt.Sprintf(format, a...))
 	}
 }
 func (v *Verdict) Count(k string, n int) {
+	verdictMu.Lock()
+	defer verdictMu.Unlock()
 	if v.Counts == nil {
 		v.Counts = map[string]int{}
 	}
 	v.Counts[k] += n
 }
 func (v *Verdict) Fail(sig, format string, a ...any) {
+	verdictMu.Lock()
+	defer verdictMu.Unlock()
 	if v.Violation == "" {
 		v.Violation = fmt.Sprintf(format, a...)
 		v.Sig = sig
